@@ -383,8 +383,9 @@ def crosscheck_fast_load(rep, prop, n=150):
 #   * the loop terminates: a block is skipped only while one remains (variant len(blocks) - block_index);
 #   * skipping goes to the next block in tape order and puts the tape on the edge after the skipped block's last edge
 #     (next_block: block_index + 1, state[1] = old state[3] + 1, J again) - or stops the tape after the last block;
-#   * the block handed to the loading code is blocks[block_index]; False is returned iff it is not fast-loadable,
-#     with no register or memory access before that.
+#   * the block handed to the loading code is blocks[block_index]; the loading code is reached iff the block is
+#     fast-loadable and the routine was entered in LOAD mode (carry set; with carry reset LD-BYTES verifies and stores
+#     nothing, which is left to the simulated ROM: F25); otherwise False is returned, with no register or memory write.
 class _Blocks:
     def __init__(self, n, W):
         self.n = n
@@ -534,10 +535,13 @@ def check_block_selection(rep, prop):
             prove('post.selected_block_is_blocks_at_block_index', isinstance(db, ObjModel) and getattr(db, 'index', None) is bi)
             if isinstance(db, ObjModel):
                 prove('post.falls_through_only_for_a_fast_loadable_block', db.attrs['fast_load'])
+            # LD-BYTES loads only when it is entered with the carry flag set; with carry reset it VERIFIES (compares the
+            # tape with memory and stores nothing): the loading shortcut must leave that case to the simulated ROM
+            prove('post.falls_through_only_in_load_mode', cmpop('==', p.regs0[Z.F] & 1, 1))
         else:
             prove('post.returns_False', p.ret is False)
             if isinstance(db, ObjModel):
-                prove('post.returns_False_only_for_a_block_that_is_not_fast_loadable', not_(db.attrs['fast_load']))
+                prove('post.returns_False_only_for_a_block_that_is_not_fast_loadable_or_in_verify_mode', or_(not_(db.attrs['fast_load']), cmpop('==', p.regs0[Z.F] & 1, 0)))
         prove('frame.registers_untouched', all(a is b for a, b in zip(p.regs.items, p.regs0)))
         prove('frame.memory_untouched', p.mem.arr is p.mem.arr0)
     eng = _selection_engine()
@@ -640,7 +644,70 @@ def replay_block_selection(vals, kind):
     r = concrete_selection()
     if r['diffs']:
         return r
-    return block_selection_scenarios((0, 1))
+    r = block_selection_scenarios((0, 1))
+    if r['diffs']:
+        return r
+    return verify_mode_scenario()
+
+
+def verify_mode_scenario():
+    """CALL 0x0556 with the carry flag reset (VERIFY): the simulated ROM routine compares and stores nothing; fast loading
+    must not store the block either. Through tap2sna, fast-load=1 against fast-load=0."""
+    import io
+    import os
+    import contextlib
+    import tempfile
+    import shutil
+    from skoolkit import tap2sna
+    from skoolkit.snapshot import Snapshot
+    tmp = tempfile.mkdtemp(prefix='c13ver_')
+    w = lambda v, k=2: list(v.to_bytes(k, 'little'))
+
+    def par(d):
+        x = 0
+        for b in d:
+            x ^= b
+        return x
+
+    def std(block, pause=1000):
+        return [0x10] + w(pause) + w(len(block)) + block
+
+    def hdr(title, start, length, typ):
+        h = [0, typ] + [ord(c) for c in title.ljust(10)] + w(length) + w(start) + (w(length) if typ == 0 else [0, 0])
+        return h + [par(h)]
+
+    def dat(data):
+        d = [255] + list(data)
+        return d + [par(d)]
+    try:
+        org = 32768
+        basic = [0, 10, 16, 0, 239, 34, 34, 175, 58, 249, 192, 176, 34] + [ord(c) for c in str(org)] + [34, 13]
+        # LD IX,49152 ; LD DE,4 ; LD A,255 ; OR A (carry reset: VERIFY) ; CALL 0x0556 ; JR $
+        code = [0xDD, 0x21, 0x00, 0xC0, 0x11, 0x04, 0x00, 0x3E, 0xFF, 0xB7, 0xCD, 0x56, 0x05, 0x18, 0xFE]
+        stop = org + len(code) - 2
+        tzx = list(b'ZXTape!\x1a\x01\x14')
+        tzx += std(hdr('loader', 10, len(basic), 0)) + std(dat(basic)) + std(hdr('code', org, len(code), 3)) + std(dat(code))
+        tzx += std(dat([128, 129, 130, 131]))
+        fn = os.path.join(tmp, 'v.tzx')
+        with open(fn, 'wb') as f:
+            f.write(bytes(tzx))
+        res = {}
+        for fast in (0, 1):
+            out = os.path.join(tmp, 'o%d.z80' % fast)
+            with contextlib.redirect_stdout(io.StringIO()), contextlib.redirect_stderr(io.StringIO()):
+                try:
+                    tap2sna.main(['--start=%d' % stop, '-c', 'fast-load=%d' % fast, '-c', 'timeout=300', fn, out])
+                except (SystemExit, Exception) as ex:
+                    res[fast] = 'failed: %r' % (ex,)
+                    continue
+            ram = list(Snapshot.get(out).ram())
+            res[fast] = ram[49152 - 16384:49152 - 16384 + 4]
+        diffs = []
+        if res.get(0) != res.get(1):
+            diffs.append(('bytes at 49152 after CALL 0x0556 with carry reset (VERIFY) on a block 128,129,130,131', {'fast-load=1': res.get(1), 'fast-load=0': res.get(0)}, 'verify'))
+        return {'case': {'verify_mode': True}, 'diffs': diffs}
+    finally:
+        shutil.rmtree(tmp, ignore_errors=True)
 
 
 def concrete_selection(trials=3000):
